@@ -1,4 +1,5 @@
 mod aisle;
+mod calls;
 mod prec;
 mod sym;
 mod util;
@@ -11,6 +12,7 @@ fn main() {
     match cmd {
         "aisle" => aisle::main(&args[1..]),
         "spans" => prec::main_spans(&args[1..]),
+        "calls" => calls::main(&args[1..]),
         "selfcheck" => println!("ok"),
         _ => {
             eprintln!("unknown command {cmd:?}");
